@@ -381,3 +381,23 @@ def nontrivial(case, out):
 
 def matches_known(k, v):
     return False
+
+
+# ---------------------------------------------------------------- the real event loop (engine: extra_cases)
+# S1/S2 above reach `TcpConnection::start` only through whole-node scenarios. The `tcploop` area drives the REAL loop
+# over loopback TCP with adapter-owned event sources (remote substreams, protocol handles, commands) and ties it to
+# Model/Conn/Permits.lean (the loop model of Model/Conn/Loop.lean plus the permits that decide the no-permit exit and
+# the idle exit). Judged here by the property-level oracle `tcploop.oracle_c07`.
+def extra_cases(rng, tier):
+    from . import tcploop
+    yield "TCPLOOP", tcploop.gen_cases(rng, tier, focus="C07")
+
+
+def oracle_extra(xpid, case, out):
+    from . import tcploop
+    return [dict(v, msg="(real TcpConnection loop, tcploop area) " + v["msg"]) for v in tcploop.oracle_c07(case, out)]
+
+
+def stats_extra(xpid, case, out, acc):
+    from . import tcploop
+    tcploop.stats(case, out, acc)
